@@ -105,4 +105,16 @@ def dlnameSearch : Str → Option Str
 /-- `extract_libtool_shlib` off macOS: basename of the dlname field -/
 def extractLibtoolShlib (data : Str) : Option Str := (dlnameSearch data).map basename
 
+/-- `resolve_shlibs(options, binary, libraries)` off macOS/Windows: `.la` requests first
+    (those without a dlname are skipped by `_resolve_libtool`), then the loader listing for
+    the others.  `laData` gives the text of each `.la` file; `output` is what ldd printed. -/
+def resolveShlibs (isFile : Str → Bool) (laData : Str → Str) (libs : List Str) (output : Str) : Result :=
+  let la := libs.filter (fun l => endsWith l ".la".toList)
+  let non := libs.filter (fun l => !endsWith l ".la".toList)
+  let fromLa := la.filterMap (fun l => extractLibtoolShlib (laData l))
+  if non.isEmpty then .ok fromLa
+  else match resolveSanitized isFile non output with
+    | .ok l => .ok (fromLa ++ l)
+    | r => r
+
 end GIVerif.Shlibs
